@@ -102,7 +102,7 @@ RawTag(toks) == [t |-> "rawtag", toks |-> toks]
 Cmt(s)      == [t |-> "cmt", s |-> s]
 
 \* the Go helpers the harness registers under these names (meanings: PlushSem.CallGo)
-HelperData == [p |-> Go("p"), fail |-> Go("fail"), failrec |-> Go("failrec"), vcount |-> Go("vcount"), getx |-> Go("getx"), boldh |-> Go("boldh"), id |-> Go("id"), raw |-> Go("raw"), len |-> Go("len"),
+HelperData == [p |-> Go("p"), fail |-> Go("fail"), failc |-> Go("failc"), faili |-> Go("faili"), failrec |-> Go("failrec"), vcount |-> Go("vcount"), getx |-> Go("getx"), boldh |-> Go("boldh"), id |-> Go("id"), raw |-> Go("raw"), len |-> Go("len"),
                range |-> Go("range"), between |-> Go("between"), until |-> Go("until"),
                blk |-> Go("blk"), blks |-> Go("blks"), blkown |-> Go("blkown"), blktry |-> Go("blktry"),
                contentFor |-> Go("contentFor"), contentOf |-> Go("contentOf"), partial |-> Go("partial")]
